@@ -186,12 +186,13 @@ theorem einv_close {d : Dpb} {r : Raw} {f : FImg} {user : Nat} {base typ : Bytes
   generalize hn : x * (d.exm + 1) + (if x + 1 < putMaxX d f then d.exm + 1 else s.lxUsed) - 1 = n at *
   -- the extent number
   have hnum : n < 2048 ∧ n / (d.exm + 1) = x ∧
-      (x + 1 = putMaxX d f → eofOf (Ext.setEof (Ext.setDataPtr fx n) rem d.v3) = (cpmParams d).eofRule f.eof) := by
+      (x + 1 = putMaxX d f → eofOf (Ext.setEof (Ext.setDataPtr fx n) rem d.v3) = (cpmParams d).eofRule f.eof) ∧
+      (x + 1 < putMaxX d f → n = x * (d.exm + 1) + d.exm) := by
     by_cases hl : x + 1 < putMaxX d f
     · rw [if_pos hl] at hn
       obtain ⟨_, q2, q3⟩ := ar_mid ht hmaxdef a6 hl
       rw [hn] at q2 q3
-      exact ⟨q2, q3, fun h => by omega⟩
+      exact ⟨q2, q3, fun h => by omega, fun _ => by omega⟩
     · rw [if_neg hl, ok3] at hn
       have hx1 : x + 1 = putMaxX d f := by omega
       -- the last chunk is the last chunk of this extent
@@ -210,7 +211,7 @@ theorem einv_close {d : Dpb} {r : Raw} {f : FImg} {user : Nat} {base typ : Bytes
         omega
       obtain ⟨_, q2, q3, q4, q5, q6, q7, q8⟩ := ar_last ht hen hmaxdef a4 a5 a6 hx1 ok1 hM
       rw [hn] at q2 q3 q4 q5
-      refine ⟨q2, q3, fun _ => ?_⟩
+      refine ⟨q2, q3, fun _ => ?_, fun h => absurd h hl⟩
       unfold cpmParams
       simp only []
       apply closed_eof oH.len n rem f.eof d.v3 q2 q4 q5
@@ -234,7 +235,7 @@ theorem einv_close {d : Dpb} {r : Raw} {f : FImg} {user : Nat} {base typ : Bytes
           simp only [Bool.or_eq_true, Bool.and_eq_true, Bool.not_eq_true', decide_eq_true_eq, not_or, not_and] at hc
           have := hc.2
           omega
-  obtain ⟨hn1, hn2, hn3⟩ := hnum
+  obtain ⟨hn1, hn2, hn3, hn4⟩ := hnum
   obtain ⟨c1, c2, c3, c4, c5, c6⟩ := closed_spec oH.len n rem d.v3 hn1
   generalize hc : Ext.setEof (Ext.setDataPtr fx n) rem d.v3 = c at *
   have hcH : Hdr user base typ c := hdr_congr c1 c2 oH
@@ -243,7 +244,7 @@ theorem einv_close {d : Dpb} {r : Raw} {f : FImg} {user : Nat} {base typ : Bytes
   have hp0 : ∀ e, (dirOf d r)[s.ptr]? = some e → isExtent e = false := by
     intro e he; rw [o2] at he; cases he; exact o3
   have hcXE : XEnt d (dirOf d r) s.r f x c := by
-    refine ⟨c4, c5, by rw [c6]; exact hn2, hxm, ?_, hn3⟩
+    refine ⟨c4, c5, by rw [c6]; exact hn2, hxm, ?_, hn3, fun hl => by rw [c6]; exact hn4 hl⟩
     intro k hk
     have := oS k hk hk
     unfold SlotOk at this
